@@ -33,7 +33,13 @@ func zzEncodeContiguous(start, stride int, counts []float64) []byte {
 	return b
 }
 
-func zzDecodeHistory(kind, steps int) {
+func zzDecodeHistory(kind, steps int) { zzDecodeHistoryOps(kind, steps, []int{0, 1, 2, 3, 4, 5, 6, 7}) }
+
+// reduced alphabets for the property-specific wrappers
+var zzReadDecodeOps = []int{0, 2, 5, 6}    // unit add, observation, decode deltas, decode contiguous
+var zzCopyDecodeOps = []int{0, 2, 3, 5, 7} // + copy and switching lines
+
+func zzDecodeHistoryOps(kind, steps int, ops []int) {
 	zzvBound("decode histories", "from a new store: sequences of 3 operations over {unit add, weighted add, observation, copy, clear, decode of an index-delta block, decode of a contiguous block (aligned full page or short strided), switch to the copy}; index base enumerated from {31, -40}")
 	zzvMapOrders(2)
 	base := []int{31, -40}[zzvChoose("base", 2)]
@@ -42,7 +48,7 @@ func zzDecodeHistory(kind, steps int) {
 	var other Store
 	var og *zzGhost
 	for step := 0; step < steps; step++ {
-		switch zzvChoose("op", 8) {
+		switch ops[zzvChoose("op", len(ops))] {
 		case 0:
 			i := base + []int{5, 33}[zzvChoose("delta", 2)]
 			s.Add(i)
@@ -103,6 +109,15 @@ func zzDecodeHistory(kind, steps int) {
 }
 
 func ZZ_C04_history_decode_pag()    { zzDecodeHistory(2, 3) }
+
+// decoding into a store that was read or copied before (C06: decode = merge; C07: every well-formed
+// block adds to what is there; C14: reads and copies do not change what later operations do)
+func ZZ_C06_decode_after_reads_pag()    { zzDecodeHistoryOps(2, 3, zzReadDecodeOps) }
+func ZZ_C06_decode_after_reads_dense()  { zzDecodeHistoryOps(0, 3, zzReadDecodeOps) }
+func ZZ_C07_repeated_blocks_pag()       { zzDecodeHistoryOps(2, 3, zzReadDecodeOps) }
+func ZZ_C07_repeated_blocks_sparse()    { zzDecodeHistoryOps(1, 3, zzReadDecodeOps) }
+func ZZ_C14_reads_then_decode_pag()     { zzDecodeHistoryOps(2, 3, zzCopyDecodeOps) }
+func ZZ_C14_reads_then_decode_sparse()  { zzDecodeHistoryOps(1, 3, zzCopyDecodeOps) }
 func ZZ_C04_history_decode_dense()  { zzDecodeHistory(0, 3) }
 func ZZ_C04_history_decode_sparse() { zzDecodeHistory(1, 3) }
 func ZZ_C04_history_decode_pag_4_T() { zzDecodeHistory(2, 4) }
